@@ -1,5 +1,5 @@
 """Symbolic execution helpers over the mini-IR (straight-line propagation with if-merging)."""
-from .ir import S, walk_stmts, walk_expr, stmt_exprs, fmt
+from .ir import S, walk_stmts, walk_expr, stmt_exprs, fmt, canon_cond
 
 
 def subst_expr(e, env):
@@ -183,7 +183,7 @@ class Exec:
                 self.path.append(c)
                 r1 = self.run(s.then, e1)
                 self.path.pop()
-                self.path.append(('un', 'not', c))
+                self.path.append(canon_cond(('un', 'not', c)))
                 r2 = self.run(s.els, e2)
                 self.path.pop()
                 if r1 is None and r2 is None:
@@ -191,7 +191,7 @@ class Exec:
                 if r1 is None:
                     env.clear()
                     env.update(e2)
-                    self.path.append(('un', 'not', c))   # the rest of this block executes under not c
+                    self.path.append(canon_cond(('un', 'not', c)))   # the rest of this block executes under not c
                     continue
                 if r2 is None:
                     env.clear()
